@@ -42,6 +42,8 @@ def evaluate(mod, case):
     from .result import Result
     common.LAYOUT = case.get('_layout', 'C') if isinstance(case, dict) else 'C'
     common.CTOR = case.get('_ctor', 'faces') if isinstance(case, dict) else 'faces'
+    common.DTYPE = 'float' if getattr(mod, 'NO_INT_DTYPE', False) else \
+        (os.environ.get('PBT_FORCE_DTYPE') or (case.get('_dtype', 'float') if isinstance(case, dict) else 'float'))
     try:
         return mod.check(case)
     except HarnessError:
@@ -151,8 +153,9 @@ class Stats:
 def with_layout(strat):
     """every generated case additionally draws the memory layout of the arrays handed to pyfvtool"""
     from hypothesis import strategies as st
-    return st.builds(lambda c, l, k: dict(c, _layout=l, _ctor=k) if isinstance(c, dict) else c, strat,
-                     st.sampled_from(['C', 'C', 'F', 'strided']), st.sampled_from(['faces', 'NL']))
+    return st.builds(lambda c, l, k, t: dict(c, _layout=l, _ctor=k, _dtype=t) if isinstance(c, dict) else c, strat,
+                     st.sampled_from(['C', 'C', 'F', 'strided']), st.sampled_from(['faces', 'NL']),
+                     st.sampled_from(['float', 'float', 'float', 'int']))
 
 
 def _shard_generate(args):
